@@ -71,11 +71,23 @@ def member(z, extra=None, timeout_ms=120000):
 
 
 def gen_points(langs, n):
+    """Solver-chosen members: one query per (language, exact length); exact lengths are what z3's sequence
+    solver answers in milliseconds here (open-ended length constraints took seconds)."""
+    lengths = [1, 2, 4, 7, 11, 14, 16, 17, 19, 21, 23, 24, 26, 29, 33, 38, 41, 44, 47, 52, 57, 63, 70, 80][:n]
     pts = []
+    s = z3.String('s')
     for z in langs:
-        for w in strlang.members(z, n, timeout_ms=10000):
-            if w not in pts:
-                pts.append(w)
+        for ln in lengths:
+            sol = z3.Solver()
+            sol.set('timeout', 10000)
+            sol.add(z3.InRe(s, z), z3.Length(s) == ln)
+            for x in pts:
+                if len(x) == ln:
+                    sol.add(s != z3.StringVal(x))
+            if str(sol.check()) == 'sat':
+                w = strlang.model_string(sol.model(), s)
+                if w not in pts:
+                    pts.append(w)
     return pts
 
 
